@@ -16,10 +16,13 @@ def run(tier):
     for data in (2, 3, 4):
         for kmig in range(1, data + 1):
             scen.append({"strategy": "expand", "data": data, "max": 16, "mininc": 2, "producers": 1, "rows": data + 2, "directed": True, "kmig": kmig})
+    # directed: another producer adds a row between the expander's usage sample and its write lock (buffer >= 10 so that "not full" is still above the 90 % threshold)
+    for data in (10, 12, 20):
+        scen.append({"strategy": "expand", "data": data, "max": 64, "mininc": 4, "producers": 2, "rows": 0, "samplerace": True})
     # free-running
     for i in range(40 if quick else 400):
         strat = ["expand", "drop", "block"][i % 3]
-        scen.append({"strategy": strat, "data": rng.choice([1, 2, 4, 16]), "max": rng.choice([8, 20, 64]), "mininc": rng.choice([1, 2, 4]), "producers": rng.choice([1, 2, 4, 8]),
+        scen.append({"strategy": strat, "data": rng.choice([1, 2, 4, 16]), "max": rng.choice([32, 40, 64]), "mininc": rng.choice([1, 2, 4]), "producers": rng.choice([1, 2, 4, 8]),
                      "rows": rng.choice([50, 200] if quick else [200, 1000, 5000]), "slowsink": rng.choice([0, 0, 20, 100]), "seed": rng.randrange(1 << 30), "perturb": True})
     seqfam.run_scenarios(res, scen, "TraceIngest", spec_dir=PIPE, tag="ingest", sub="ingest")
     res.cov["exhaustive"] = False
